@@ -26,12 +26,12 @@ PID = 'C01'
 RULE = ('cases = random systems of rank 1-3 (atomic / polymer / mixed; per pair any of PY, HNC, MSA, MS with/without hard-core flag and HardSphere, HCLJ, '
         'Exponential, LennardJones (cut/shift/none), WCA; per type SingleSite, Gaussian, FJC, GaussianRing; tabulated cross omegas; domain length 64-256 (512 thorough), dr 0.05-0.25; '
         'packing fraction 1e-3..0.4; kT 0.6-5) solved with krylov(armijo|wolfe), df-sane, anderson, broyden1 (hybr for small grids) from guesses zero / continuation / '
-        'perturbed solution / half solution; the Domain is reached through its constructor (dr or dk) or through setter histories, kT through the constructor or by assignment, and 30 % of the objects are solved only after hostile edits of the System they were created from; only converged solves are judged; non-trivial = converged solve with >= 3 cost evaluations; distinct = distinct (spec, method, guess) digests')
+        'perturbed solution / half solution; the Domain is reached through its constructor (dr or dk) or through setter histories, kT through the constructor or by assignment, and 30 % of the objects are solved only after hostile edits of the System they were created from; only converged solves are judged; every fourth case instead compares the real cost function with an independent re-implementation (refmodel.cost_ref) on random symmetric trial vectors; non-trivial = converged solve with >= 3 cost evaluations; distinct = distinct (spec, method, guess) digests')
 ASSUMPTIONS = ['contact points (|r - sigma| < 1e-6) are judged by C10 and masked here',
                'MS pairs are compared with the Martynov-Sarkisov relation; a mismatch equal to the shipped expression is the known finding of C09',
                'tolerances: O1 1e-9 relative; O2 1e-11*(1+max|c|)*L/64 (observed <= 1e-14 on the unchanged tree; 1e-9..1e-6 when the arrays belong to another x); O3 1e-7*N*rho']
-MINIMA = {'quick': {'solve.converged': 60, 'oracle.prism_equation': 60, 'oracle.closure_pairs': 100, 'oracle.omega_pairs': 100},
-          'thorough': {'solve.converged': 1500, 'oracle.prism_equation': 1500, 'oracle.closure_pairs': 3000, 'oracle.omega_pairs': 3000}}
+MINIMA = {'quick': {'oracle.cost_vs_reference': 60, 'solve.converged': 60, 'oracle.prism_equation': 60, 'oracle.closure_pairs': 100, 'oracle.omega_pairs': 100},
+          'thorough': {'oracle.cost_vs_reference': 1500, 'solve.converged': 1500, 'oracle.prism_equation': 1500, 'oracle.closure_pairs': 3000, 'oracle.omega_pairs': 3000}}
 SHARDS = {'quick': 8, 'thorough': 16}
 TIME_BUDGET = {'quick': 35, 'thorough': 330}
 
@@ -62,6 +62,9 @@ def cases(ctx):
     n = ctx.budget(320, 8000)
     lengths = [64, 100, 128, 200, 256] + ([384, 512] if ctx.thorough() else [])
     for it in range(n):
+        if it % 4 == 3:
+            yield {'kind': 'cost_ref', 'seed': int(rng.integers(0, 2 ** 31)), 'via': str(rng.choice(G.VIAS)), 'kT_via': str(rng.choice(['ctor', 'assign']))}
+            continue
         yield {'seed': int(rng.integers(0, 2 ** 31)), 'guess': str(rng.choice(['zero', 'zero', 'continuation', 'perturbed', 'half'])),
                'first': int(rng.integers(0, len(METHODS))), 'lengths': lengths, 'cross': bool(rng.random() < 0.3), 'hybr': bool(rng.random() < 0.08),
                'via': str(rng.choice(G.VIAS)), 'kT_via': str(rng.choice(['ctor', 'ctor', 'assign'])), 'deferred': bool(rng.random() < 0.3)}
@@ -153,7 +156,69 @@ def oracle(ctx, sp, p, res, label):
             break
 
 
+def run_cost_ref(ctx, case):
+    """history + executable model: the real cost function against an independent re-implementation, for arbitrary (not only
+    converged) arguments.  A solve only ever sees the cost function, so agreement here plus the post-conditions on solved
+    objects pins the whole pipeline."""
+    rng = np.random.default_rng(case['seed'])
+    sp = G.gen_spec(rng, lengths=[64, 100, 128])
+    if len(sp['types']) > 1 and rng.random() < 0.4:
+        kgrid = R.grids(sp['L'], sp['dr'])[1]
+        for (i, j), (a, b) in G.pairs(sp['types'], diagonal=False):
+            sp['om'][G.pk(a, b)] = {'t': 'ARR', 'w': (float(rng.uniform(0.1, 0.8)) * np.exp(-kgrid * float(rng.uniform(0.3, 1.0)))).tolist()}
+    r = R.grids(sp['L'], sp['dr'])[0]
+    for (i, j), (a, b) in G.pairs(sp['types']):
+        ps = sp['pot'][G.pk(a, b)]
+        sig = (sp['d'][a] + sp['d'][b]) / 2.0
+        cuts = [x for x in R.special_points(ps, sig)[1:]]
+        if any(np.any(np.abs(r - x) < R.CONTACT_TOL) for x in cuts):
+            raise core.Skip('a cut-off coincides with a grid point (side decided by last-digit noise of the grid)')
+    sp['via'], sp['kT_via'] = case['via'], case['kT_via']
+    with np.errstate(all='ignore'):
+        p = G.build(sp).createPRISM()
+    n = sp['L'] * len(sp['types']) ** 2
+    done = 0
+    for trial in range(4):
+        x = rng.normal(size=n) * float(10 ** rng.uniform(-2, 0.3))
+        X = x.reshape(sp['L'], len(sp['types']), len(sp['types']))
+        x = (0.5 * (X + np.transpose(X, (0, 2, 1)))).reshape(-1)          # the solver only ever produces symmetric iterates
+        with np.errstate(all='ignore'):
+            try:
+                y = np.array(p.cost(np.array(x)), dtype=float)
+            except np.linalg.LinAlgError:
+                continue
+            yref, cond = R.cost_ref(sp, x, G.pairs)
+            if any(v['t'] == 'MS' for v in sp['clo'].values()) and y.shape == yref.shape and np.all(np.isfinite(yref)):
+                # the shipped MS expression is a known finding of C09; either literature form is acceptable here as well
+                for form in ('published', 'original'):
+                    alt, c2 = R.cost_ref(sp, x, G.pairs, ms=form)
+                    if np.all(np.isfinite(alt)) and np.abs(y - alt).max() < np.abs(y - yref).max():
+                        yref, cond = alt, c2
+        if not np.all(np.isfinite(yref)) or cond > 1e6:
+            ctx.count('cost_ref_skipped', 'ill-conditioned or overflowing trial vector')
+            continue
+        ctx.hook('oracle.cost_vs_reference')
+        done += 1
+        scale = 1 + float(np.abs(yref).max())
+        e = float(np.abs(y - yref).max()) / scale
+        tol = 1e-9 * max(1.0, cond)
+        ctx.observe('cost_vs_reference/tol', e / tol)
+        if y.shape != yref.shape or not e <= tol:
+            Y, Yr = y.reshape(sp['L'], -1), yref.reshape(sp['L'], -1)
+            jj = int(np.argmax(np.abs(Y - Yr).max(axis=0)))
+            nt = len(sp['types'])
+            ctx.violation('solve:cost-function-differs-from-reference:%s' % ('diagonal-pair' if jj // nt == jj % nt else 'cross-pair'),
+                          '%s domain-via-%s kT-via-%s: PRISM.cost(x) differs from the reference self-consistency map by %.3g (relative; cond(I-Omega C)=%.3g), worst for pair %s-%s' % (
+                              G.spec_signature(sp), sp['via'], sp['kT_via'], e, cond, sp['types'][jj // nt], sp['types'][jj % nt]))
+            return
+    if done:
+        ctx.nontrivial(['cost_ref', case['seed']])
+    ctx.count('cost_ref_rank', len(sp['types']))
+
+
 def run_case(ctx, case):
+    if case.get('kind') == 'cost_ref':
+        return run_cost_ref(ctx, case)
     rng = np.random.default_rng(case['seed'])
     sp = G.gen_spec(rng, lengths=[64] if case['hybr'] else case['lengths'])
     if case['cross'] and len(sp['types']) > 1:
